@@ -1096,6 +1096,38 @@ def check_C13(ctx):
                         bad = bad or (m, f, got)
             rep.ob("C13." + name, "%d rank masks" % len(decisive), nb == 0,
                    "%s is %s for rank mask %#06x (ranks %s, flush=%s); the hand's category says otherwise (%d masks disagree)" % (name, bool(bad[2]) if bad else "", bad[0] if bad else 0, mask_ranks(bad[0]) if bad else "", bad[1] if bad else 0, nb), pdb.where(key))
+            # the predicate is total: its panic sites (overflow, asserts), rewritten over the same factors, hold on
+            # every rank mask / flush combination of five real cards
+            for o in sm.obligations:
+                if o.cond[0] == "c" and o.cond[1]:
+                    continue
+                label = "%s %s L%s" % (short(o.fn), o.kind, o.line)
+                c2 = fz.rewrite(o.cond)
+                pc2 = [fz.rewrite(c) for c in o.pc]
+                left2 = sorted({a for root in [c2] + pc2 for a in atoms_of(root) if a in slots})
+                if left2:
+                    from ..evals import prove_obligation
+                    if prove_obligation(pdb, o.cond):
+                        rep.ob("C13.no-panic", label, True)
+                    else:
+                        rep.uncertified("C13.no-panic", "panic site %s depends on slot bits outside the rank mask / flush test" % label, "%s line %s" % (pdb.where(o.fn), o.line))
+                    continue
+                badp = None
+                for m in decisive:
+                    for f in (0, 1):
+                        if f and bin(m).count("1") != 5:
+                            continue
+                        env = {"M": m, "F": f, "P": 0, "$contract:find_in_products": lambda k: C(0, "usize")}
+                        try:
+                            if all(cval(ctx.fold(c, env)) for c in pc2) and not cval(ctx.fold(c2, env)):
+                                badp = (m, f)
+                        except IndexError:
+                            badp = (m, f)
+                        if badp:
+                            break
+                    if badp:
+                        break
+                rep.ob("C13.no-panic", label, badp is None, "%s panics (%s, line %s) for rank mask %#06x (ranks %s), flush=%s" % (name, o.kind, o.line, badp[0] if badp else 0, mask_ranks(badp[0]) if badp else "", badp[1] if badp else 0), "%s line %s" % (pdb.where(o.fn), o.line))
         rep.sample({"rule": "C13", "masks": len(decisive), "example": {"mask": "0x1F00", "is_straight": True}})
     ctx.guard("C13.predicates", straight_like)
 
@@ -2103,7 +2135,8 @@ def check_C08(ctx):
             rep.ob("C08.card-shift", oracle.card_const_name(r, s_), got == exp, "shift_suit(%s) = %s, expected %s" % (oracle.card_const_name(r, s_), "%#x" % got if got is not None else got, oracle.card_const_name(r, nxt[s_])), pdb.where(kshift))
         rep.ob("C08.card-shift", "BLANK", cval(ctx.fold(dag, {"w": 0})) == 0, "shift_suit(BLANK) is not BLANK", pdb.where(kshift))
         rep.floor("C08.card-shift", 53, 53)
-    ctx.guard("C08.card-shift", card)
+    with ctx.total("C08.no-panic"):
+        ctx.guard("C08.card-shift", card)
 
     cnt = 0
     for path, n in CONTAINERS:
@@ -2115,6 +2148,9 @@ def check_C08(ctx):
             key = im2["items"]["shift_suit"]
             h = ctx.hand(path, n)
             sm = ctx.summ(key, [("r", h)], None, opaque={kshift})
+            from .base import panic_free
+            from .cards import word_envs
+            panic_free(ctx, "C08.no-panic", sm, [dict(e, **{"$fn:" + kshift: (lambda *a: C(0, "u32"))}) for e in word_envs(n, False)], False, "%s::shift_suit" % short(path))
             got = arr_of(sm.ret)
             ok = got is not None and len(got) == n
             desc = []
